@@ -378,6 +378,10 @@ def clamp_bounds(prog: Program, mod, e: ast.AST, rename=None):
 # MiniExec: interpretation of a small, pure, integer-valued function body on representatives of a finite
 # partition (the caller proves the partition exact from the constants the function uses)
 # --------------------------------------------------------------------------------------------
+class _Continue(Exception):
+    pass
+
+
 class _Return(Exception):
     def __init__(self, value):
         self.value = value
@@ -445,7 +449,24 @@ class MiniExec(MiniEval):
                     self.block(s.body)
                 except StopIteration:
                     break
+                except _Continue:
+                    continue
             return
+        if isinstance(s, ast.While):
+            guard = 0
+            while self.ev(s.test):
+                guard += 1
+                if guard > 100000:
+                    raise AnalysisError(f"MiniExec: loop bound exceeded in {self.fi.qual}:{s.lineno}")
+                try:
+                    self.block(s.body)
+                except StopIteration:
+                    break
+                except _Continue:
+                    continue
+            return
+        if isinstance(s, ast.Continue):
+            raise _Continue()
         if isinstance(s, ast.Return):
             raise _Return(self.ev(s.value) if s.value is not None else None)
         if isinstance(s, ast.Pass):
